@@ -348,6 +348,7 @@ impl<L> ClientBuilder<L> {
 			manager: manager.clone(),
 			max_buffer_capacity_per_subscription,
 			ping_interval,
+			err_to_front: disconnect_reason.clone(),
 		}));
 
 		tokio::spawn(read_task(ReadTaskParams {
@@ -407,6 +408,7 @@ impl<L> ClientBuilder<L> {
 			manager: manager.clone(),
 			max_buffer_capacity_per_subscription,
 			ping_interval,
+			err_to_front: disconnect_reason.clone(),
 		}));
 
 		wasm_bindgen_futures::spawn_local(read_task(ReadTaskParams {
@@ -922,6 +924,7 @@ struct SendTaskParams<T: TransportSenderT, S> {
 	manager: ThreadSafeRequestManager,
 	max_buffer_capacity_per_subscription: usize,
 	ping_interval: IntervalStream<S>,
+	err_to_front: SharedDisconnectReason,
 }
 
 async fn send_task<T, S>(params: SendTaskParams<T, S>)
@@ -936,6 +939,7 @@ where
 		manager,
 		max_buffer_capacity_per_subscription,
 		mut ping_interval,
+		err_to_front,
 	} = params;
 
 	// This is safe because `tokio::time::Interval`, `tokio::mpsc::Sender` and `tokio::mpsc::Receiver`
@@ -963,6 +967,19 @@ where
 				}
 			}
 		}
+	};
+
+	// The front end learns that the connection is gone from the closed channel: record the cause first,
+	// such that a call or `on_disconnect` that observes the closed channel never finds the cause missing.
+	let res = match res {
+		Err(err) => {
+			let mut reason = err_to_front.write().expect(NOT_POISONED);
+			if reason.is_none() {
+				*reason = Some(Arc::new(err));
+			}
+			Ok(())
+		}
+		Ok(()) => Ok(()),
 	};
 
 	from_frontend.close();
